@@ -471,7 +471,9 @@ def run_runner(runner, lines, shards=None):
     def one(part):
         if not part:
             return ""
-        p = subprocess.run([runner], input="\n".join(part) + "\n", stdout=subprocess.PIPE,
+        # the extracted list functions are not tail-recursive: 1 MiB values need a deep C stack
+        p = subprocess.run(["bash", "-c", f"ulimit -s unlimited 2>/dev/null || ulimit -s 4000000; exec '{runner}'"],
+                           input="\n".join(part) + "\n", stdout=subprocess.PIPE,
                            stderr=subprocess.STDOUT, text=True, timeout=1500)
         return p.stdout
 
